@@ -42,6 +42,23 @@ func (ex *Exec) bytesToTree(v Value, site ssa.Instruction) (*JNode, string) {
 		}
 		return n, ""
 	}
+	// several JSON texts (and only white space) in one input: not one JSON value
+	if parts := ropeParts(content); len(parts) > 1 {
+		trees, other := 0, false
+		for _, p := range parts {
+			switch x := p.(type) {
+			case *JNode:
+				trees++
+			case *Term:
+				if c, ok := x.StrVal(); !ok || strings.TrimSpace(c) != "" {
+					other = true
+				}
+			}
+		}
+		if trees > 1 && !other {
+			return nil, "invalid character after top-level value"
+		}
+	}
 	if t, ok := content.(*Term); ok {
 		if s, ok := t.StrVal(); ok {
 			if strings.TrimSpace(s) == "" {
